@@ -111,6 +111,19 @@ M = [
       old="__FROM_PATCH__", new="", expect="c16.precguard|uint::boxed::encoding::<impl uint::boxed::BoxedUint>::from_le_slice", patch="/verif/seeded/C16c/patch.diff"),
  dict(name="int_gcd_vartime_raw_bits", prop="C15", file="src/int/gcd.rs",
       old="__FROM_PATCH__", new="", expect="c15.sibling|int::gcd::<impl traits::Gcd for int::Int<_>>::gcd_vartime", patch="/verif/seeded/C15c/patch.diff"),
+ # --- C10 / C13 (gate dependence)
+ dict(name="inv_mod2k_vartime_gate_ignores_k", prop="C10", file="src/uint/inv_mod.rs",
+      old="        let is_some = ConstChoice::from_u32_nonzero(k).not().or(self.is_odd());\n\n        while i < k {\n            // X_i = b_i mod 2\n            let x_i = b.limbs[0].0 & 1;\n            let x_i_choice = ConstChoice::from_word_lsb(x_i);\n            // b_{i+1} = (b_i - a * X_i) / 2\n            b = Self::select(&b, &b.wrapping_sub(self), x_i_choice).shr1();",
+      new="        let is_some = ConstChoice::from_u32_nonzero(k).not().or(ConstChoice::TRUE);\n\n        while i < k {\n            // X_i = b_i mod 2\n            let x_i = b.limbs[0].0 & 1;\n            let x_i_choice = ConstChoice::from_word_lsb(x_i);\n            // b_{i+1} = (b_i - a * X_i) / 2\n            b = Self::select(&b, &b.wrapping_sub(self), x_i_choice).shr1();",
+      expect="c10.gate|uint::inv_mod::<impl uint::Uint<_>>::inv_mod2k_vartime"),
+ dict(name="safegcd_inv_gate_constant", prop="C10", file="src/modular/safegcd.rs",
+      old="        let is_some = f.eq(&UnsatInt::ONE).or(antiunit);\n        ConstCtOption::new(ret.to_uint(), is_some)\n    }\n\n    /// Returns either the adjusted modular multiplicative inverse for the argument or `None`\n    /// depending on invertibility of the argument, i.e. its coprimality with the modulus.\n    ///\n    /// This version is variable-time",
+      new="        let is_some = ConstChoice::TRUE;\n        let _ = f;\n        ConstCtOption::new(ret.to_uint(), is_some)\n    }\n\n    /// Returns either the adjusted modular multiplicative inverse for the argument or `None`\n    /// depending on invertibility of the argument, i.e. its coprimality with the modulus.\n    ///\n    /// This version is variable-time",
+      expect="c10.gate|modular::safegcd::SafeGcdInverter<_>::inv"),
+ dict(name="int_checked_neg_always_some", prop="C13", file="src/int/neg.rs",
+      old="        let (value, overflow) = self.overflowing_neg();\n        ConstCtOption::new(value, overflow.not())",
+      new="        let (value, _overflow) = self.overflowing_neg();\n        ConstCtOption::some(value)",
+      expect="|int::neg::<impl int::Int<_>>::checked_neg"),
  # --- C19
  dict(name="random_mod_core_polarity", prop="C19", file="src/uint/rand.rs",
       old="        if n.ct_lt(modulus).into() {\n            break;", new="        if !bool::from(n.ct_lt(modulus)) {\n            break;",
